@@ -285,6 +285,7 @@ OKChild(ctx, first, prev, b) ==
         /\ b.ind = 0                            \* marker spaces + indentation <= 4
         /\ b.k # "icode"
         /\ (b.k = "them" => b.c # ctx.c)        \* "- ---" is a thematic break
+        /\ ((b.k = "ulist" /\ ctx.k = "ulist") => b.c # ctx.c)   \* "- - -" is a thematic break
   /\ (ctx.k = "quote" /\ ctx.s = ">") =>        \* ">" swallows one space of the content
         /\ b.ind = 0
         /\ b.k \in LeafKinds \ {"icode"}
